@@ -1655,7 +1655,13 @@ func (fv *funcVerifier) callWithSpecSig(st *State, call *ast.CallExpr, sig *type
 			// not assumed (assuming less is sound)
 			continue
 		}
-		fv.assume(st, post.evalBool(e))
+		// a clause that mentions a local variable of the callee cannot be evaluated here: it is
+		// not assumed (assuming less is sound; the callee's own verification rejects unknown names)
+		if v, ok := post.tryEval(e); ok && v.t.Sort == smt.Bool {
+			fv.assume(st, v.t)
+		} else {
+			fv.note("contract clause of " + sp.Key + " not usable at a call site (mentions a callee-local name): " + e.String())
+		}
 	}
 	// "sets" right-hand sides read the CALLER's ghost variables (callee-private ghosts of the same name are hidden)
 	setEnv := post
